@@ -3,7 +3,7 @@
 # full .vo build (never -vos) of the theories of every claimed property, the
 # extension cache for /repo's current tree, extracted OCaml drivers if any.
 cd "$(dirname "$0")"
-mkdir -p .cache coq/gen evidence/replay
+mkdir -p .cache/gen evidence/replay
 /venv/bin/python - <<'PY'
 import json, os, sys
 from harness import core
